@@ -88,7 +88,7 @@ CHECKS = {
     "C06": dict(
         level="model_checking",
         clauses=GEN_CLAUSES_SPEC | {"errclass"},
-        phases=dict(quick=[dict(kind="joinnames"), dict(kind="argspace", verbs=["joinrows"]), dict(kind="flatjoin", pre=2), dict(profile="join2"), dict(profile="joins3"), dict(profile="joinh4"), dict(profile="joinz4")],
+        phases=dict(quick=[dict(kind="joinnames"), dict(kind="argspace", verbs=["joinrows"]), dict(kind="flatjoin", pre=2), dict(profile="join2"), dict(profile="join2", opts=dict(alt=True)), dict(profile="joins3"), dict(profile="joinh4"), dict(profile="joinz4")],
                     thorough=[dict(kind="argspace", verbs=["joinrows"], jkeys=[0, 1, 2, 3], jmax=3), dict(kind="joinnames", lu=["a", "b", "a_t2", "b_t2", "a_t2_1", "b_t2_1", "a_t2_2", "a_x"], ru=["a", "b", "c", "a_t2", "b_t2"]),
                               dict(kind="flatjoin", pre=3, pairs=[(1, 2), (6, 2), (7, 2)]), dict(profile="join2"), dict(profile="join3"), dict(profile="joins4"), dict(profile="joinh4"), dict(profile="joinz4")]),
     ),
@@ -113,8 +113,8 @@ CHECKS = {
     "C03": dict(
         level="model_checking",
         clauses={"rows", "order", "names", "accept", "export-error", "cross-rows"},
-        phases=dict(quick=[dict(kind="laws"), dict(kind="proofs"), dict(profile="fn1", opts=dict(pool=True))],
-                    thorough=[dict(kind="laws"), dict(kind="proofs"), dict(profile="fn1", opts=dict(pool=True)), dict(profile="fn2", opts=dict(pool=True))]),
+        phases=dict(quick=[dict(kind="laws"), dict(kind="proofs"), dict(profile="fn1", opts=dict(pool=True)), dict(profile="fn1", opts=dict(alt=True))],
+                    thorough=[dict(kind="laws"), dict(kind="proofs"), dict(profile="fn1", opts=dict(pool=True)), dict(profile="fn1", opts=dict(alt=True)), dict(profile="fn2", opts=dict(pool=True)), dict(profile="fn2", opts=dict(alt=True))]),
     ),
     "C17": dict(
         level="model_checking",
@@ -124,7 +124,7 @@ CHECKS = {
     "C18": dict(
         level="model_checking",
         clauses={"rows", "order", "names", "accept", "export-error", "cross-rows"},
-        phases=dict(quick=[dict(profile="str1")], thorough=[dict(profile="str1")]),
+        phases=dict(quick=[dict(profile="str1"), dict(profile="str1", opts=dict(alt=True))], thorough=[dict(profile="str1"), dict(profile="str1", opts=dict(alt=True))]),
     ),
     "C04": dict(
         level="model_checking",
@@ -135,7 +135,7 @@ CHECKS = {
     "C05": dict(
         level="model_checking",
         clauses=GEN_CLAUSES_SPEC,
-        phases=dict(quick=[dict(kind="argspace", verbs=["win"], wmax=3), dict(profile="win2"), dict(profile="wins3")],
+        phases=dict(quick=[dict(kind="argspace", verbs=["win"], wmax=3), dict(profile="win2"), dict(profile="win2", opts=dict(alt=True)), dict(profile="wins3")],
                     thorough=[dict(kind="argspace", verbs=["win"], wmax=4), dict(profile="win2"), dict(profile="win3"), dict(profile="wins4")]),
     ),
     "C09": dict(
